@@ -319,6 +319,9 @@ let () =
                        (* the marker T::MAX when 2^vars is not representable; the count 0 of the
                           unsatisfiable function stays 0 in every type (coq/DD/SatCount.v, [saturate]) *)
                        | ("u64" | "u128") when Z.sign exact = 0 -> "0"
+                       (* ZBDD: the path count is shifted by vars - levels: exact while the count itself fits *)
+                       | "u64" when kname = "zbdd" -> if Z.numbits exact > 64 then "18446744073709551615" else Z.to_string exact
+                       | "u128" when kname = "zbdd" -> if Z.numbits exact > 128 then "340282366920938463463374607431768211455" else Z.to_string exact
                        | "u64" -> if Z.numbits (Z.pow (Z.of_int 2) vars) > 64 then "18446744073709551615" else Z.to_string exact
                        | "u128" -> if Z.numbits (Z.pow (Z.of_int 2) vars) > 128 then "340282366920938463463374607431768211455" else Z.to_string exact
                        | "nat" | "nat_fresh" -> Z.to_string exact
@@ -528,6 +531,14 @@ let () =
            (match Lswap.check pp ps (int_of_string (String.sub ld 10 (String.length ld - 10))) with
             | Ok () -> ()
             | Error (kind, m) -> fail step "C08" kind m)
+         (* a snapshot, set_var_order(_seq), a snapshot: replay on the extracted set_var_order_model; the
+            concurrent variant (several workers and >= 65536 nodes) performs the swaps in no fixed order *)
+         | [ od ], Some pp when kname = "bdd" && List.mem "C08" !props && starts_with od "ORDER "
+                                && (pp.inner < 65536 || param_int c "threads" 1 = 1) ->
+           (match Lswap.check_order pp ps (List.map int_of_string (List.tl (split_ws od))) with
+            | None -> ()
+            | Some (Ok ()) -> check "C08"
+            | Some (Error (kind, m)) -> check "C08"; fail step "C08" kind m)
          | _ -> ());
         lswap_pending := false;
         (match !since, !prev_ps with
@@ -561,7 +572,7 @@ let () =
             else (
               (* "no dead node after gc" can only be asserted if the snapshot directly follows the gc *)
               (match toks with [ "SNAP" ] | [ "GC" ] -> () | _ -> gc_pending := false; dropall_gc := !dropall_gc && false);
-              (match toks with [ "SNAP" ] | "VARS" :: _ | "LEVELDOWN" :: _ -> () | _ -> since := "other" :: !since);
+              (match toks with [ "SNAP" ] | "VARS" :: _ | "LEVELDOWN" :: _ | "ORDER" :: _ | "ORDERSEQ" :: _ -> () | _ -> since := "other" :: !since);
               match toks with
               | [ "SNAP" ] -> (try process_snapshot i res with Failure m -> fail i "C03" "corr" ("driver: " ^ m))
               (* C07: block markers, the event trace (replayed by ocaml/c07_main.ml) and a collection under
@@ -580,7 +591,8 @@ let () =
                  | Some k when cap > 0 && List.assoc_opt "oom" kv = Some 1 && k <> cap ->
                    fail i "C05" "prop" (Printf.sprintf "capacity probe: out of memory with %d stored nodes in a manager of capacity %d (all of them referenced)" k cap)
                  | _ -> ())
-              | ("ORDER" | "ORDERSEQ") :: vs -> order_req := Some (List.map int_of_string vs)
+              | ("ORDER" | "ORDERSEQ") :: vs ->
+                order_req := Some (List.map int_of_string vs); since := ("ORDER " ^ String.concat " " vs) :: !since
               | [ "LEVELDOWN"; k ] -> lswap_pending := true; since := ("LEVELDOWN " ^ k) :: !since
               | "MKSUBST" :: sid :: pairs ->
                 let ps = List.filter_map (fun p -> match String.split_on_char '=' p with
